@@ -175,6 +175,7 @@ class GraphRun:
         hdr = {"n": self.n, "kind": [SPEC_KIND[p["kind"]] for p in self.plan],
                "inp": [p["inp"] for p in self.plan], "init": init,
                "plan_kinds": [p["kind"] for p in self.plan]}
+        self.hidden = hidden
         if hidden:
             dists = [i for i, p in enumerate(self.plan, start=1) if p["kind"] in ("d", "e")]
             ids = {f"n{i}": i for i in range(1, self.n + 1)}
@@ -208,12 +209,39 @@ class GraphRun:
                 self.slots.append(m.state)
             elif o["ev"] == "restore":
                 m.state = self.slots[o["slot"] - 1]
+            elif o["ev"] == "rebuild":
+                return self.rebuild(o["n"], o["x"])
         except Exception as ex:  # noqa: BLE001  (a node function raised: the operation is aborted where it stands)
             if not isinstance(ex, Poisoned) and not isinstance(ex.__cause__, Poisoned):
                 raise
             ev["raised"] = True
         ev.update(self.snapshot())
         return ev
+
+
+def _rebuild(self, n, x):
+    """pop the nodes out of the model, assign a value while they belong to no model, build a new model from the same
+    objects (the documented way to modify an existing model)."""
+    nodes, vars_ = self.model.pop_nodes_and_vars()
+    self.nodes[n].value = Term(x)
+    gb = lsl.GraphBuilder(to_float32=False)
+    gb.add(*vars_.values(), *nodes.values())
+    self._configure_builder(gb)
+    self.calls.clear()
+    self.model = gb.build_model()
+    ev = {"ev": "rebuild", "n": n, "x": x, "raised": False}
+    ev.update(self.snapshot())
+    ev["evald"] = sorted(set(ev["evald"]))
+    ids = {f"n{i}": i for i in range(1, self.n + 1)}
+    ids.update({nm: self.n + 1 + k for k, nm in enumerate(self.HIDDEN)})
+    ev["order_all"] = [ids[nd.name] for nd in self.model._sorted_nodes if nd.name in ids]
+    if getattr(self, "hidden", False):
+        ev["order"] = ev["order_all"]
+    return ev
+
+
+GraphRun.rebuild = _rebuild
+GraphRun._configure_builder = lambda self, gb: None
 
 
 def gen_ops(rng, plan, nops, atoms=("a", "b", "c")):
@@ -246,6 +274,10 @@ def gen_ops(rng, plan, nops, atoms=("a", "b", "c")):
                     {"ev": "update_all"},
                     {"ev": "assign", "n": i, "x": rng.choice(atoms) + str(rng.randint(0, 2)), "via_var": False},
                     {"ev": "update_all"}]
+        elif r < 0.26 and vals:
+            # (only when no poisoned value is around: a build whose node function raises fails)
+            ops += [{"ev": "update_all"}] if False else []
+            ops.append({"ev": "rebuild", "n": rng.choice(vals), "x": rng.choice(atoms) + str(rng.randint(6, 8))})
         elif r < 0.45:
             i = rng.choice(vals)
             ops.append({"ev": "assign", "n": i, "x": rng.choice(atoms) + str(rng.randint(0, 2)),
